@@ -265,15 +265,17 @@ fn build(op: &Value, w: &World, u: u64, link: bool, keep: &mut Keep) -> Built {
             }
             "readfix" => {
                 let b = g("buf") as usize;
-                std::ptr::write_bytes(regbuf(b), 0, 64);
-                IoUringSubmissionQueueEntry::new_readv_fixed(Fd::try_new(w.fd(g("h") as usize)).unwrap(), b as u16, regbuf(b) as u64,
+                std::ptr::write_bytes(regbuf(b), 0, 128);
+                // boff: the transfer starts 8 bytes into the registered buffer (address != buffer base)
+                IoUringSubmissionQueueEntry::new_readv_fixed(Fd::try_new(w.fd(g("h") as usize)).unwrap(), b as u16, regbuf(b).add(8 * g("boff") as usize) as u64,
                     RLEN[g("len") as usize] as u32, u, fl)
             }
             "writefix" => {
                 let b = g("buf") as usize;
                 let d = WDATA[g("data") as usize];
-                std::ptr::copy_nonoverlapping(d.as_ptr(), regbuf(b), d.len());
-                IoUringSubmissionQueueEntry::new_writev_fixed(Fd::try_new(w.fd(g("h") as usize)).unwrap(), b as u16, regbuf(b) as u64,
+                std::ptr::write_bytes(regbuf(b), b'#', 128);
+                std::ptr::copy_nonoverlapping(d.as_ptr(), regbuf(b).add(8 * g("boff") as usize), d.len());
+                IoUringSubmissionQueueEntry::new_writev_fixed(Fd::try_new(w.fd(g("h") as usize)).unwrap(), b as u16, regbuf(b).add(8 * g("boff") as usize) as u64,
                     d.len() as u32, u, fl)
             }
             "statx" => {
@@ -489,8 +491,8 @@ fn run(batches: &str, root: &str, entries: u32, flagbits: u32, out: &mut Out) {
     };
     out.ev(&geometry(&ring, entries, flagbits));
     // two registered buffers (IORING_REGISTER_BUFFERS through the wrapper)
-    let mut rb0 = vec![0u8; 64];
-    let mut rb1 = vec![0u8; 64];
+    let mut rb0 = vec![0u8; 128];
+    let mut rb1 = vec![0u8; 128];
     unsafe {
         REGBUF = [rb0.as_mut_ptr() as usize, rb1.as_mut_ptr() as usize];
         let reg = rusl::io_uring::io_uring_register_buffers(ring.fd, &[rusl::platform::IoSliceMut::new(&mut rb0), rusl::platform::IoSliceMut::new(&mut rb1)]);
@@ -631,7 +633,7 @@ fn run(batches: &str, root: &str, entries: u32, flagbits: u32, out: &mut Out) {
                 }
                 "readfix" if res >= 0 => {
                     let b = op["buf"].as_u64().unwrap_or(0) as usize;
-                    let data = unsafe { std::slice::from_raw_parts(regbuf(b), 64) };
+                    let data = unsafe { std::slice::from_raw_parts(regbuf(b).add(8 * op["boff"].as_u64().unwrap_or(0) as usize), 64) };
                     json!(String::from_utf8_lossy(&data[..(res as usize).min(64)]))
                 }
                 "statx" if res == 0 => stx_json(&keep.stx[built[k].stx_ix.unwrap()]),
@@ -742,6 +744,20 @@ struct SockWorld {
     file_ino: u64,
     dgram_tx: i32,             // datagram sender connected to a receiver nobody reads (its queue fills up)
     dgram_rx: i32,
+    /// listeners 1..3 bound to abstract names (sun_path bytes, leading NUL): short / interior NULs / maximal length
+    alisten: [i32; 4],
+    aname: [Vec<u8>; 4],
+    tag: String,
+    pending_on: [std::collections::VecDeque<usize>; 4],
+}
+
+fn sockaddr_of(sun_path: &[u8]) -> (libc::sockaddr_un, u32) {
+    let mut sa: libc::sockaddr_un = unsafe { std::mem::zeroed() };
+    sa.sun_family = libc::AF_UNIX as u16;
+    for (i, b) in sun_path.iter().enumerate().take(108) {
+        sa.sun_path[i] = *b as libc::c_char;
+    }
+    (sa, (2 + sun_path.len().min(108)) as u32)
 }
 
 fn ino_of(fd: i32) -> u64 {
@@ -785,12 +801,31 @@ impl SockWorld {
             assert_eq!(0, libc::bind(dgram_rx, std::ptr::addr_of!(da).cast(), dlen));
             let dgram_tx = libc::socket(libc::AF_UNIX, libc::SOCK_DGRAM | libc::SOCK_CLOEXEC, 0);
             assert_eq!(0, libc::connect(dgram_tx, std::ptr::addr_of!(da).cast(), dlen));
-            SockWorld { path, listener, client: [-1, c1, c2], server_side: [-1; 3], pending: Default::default(), file, file_ino: ino_of(file), dgram_tx, dgram_rx }
+            // abstract names are global to the network namespace: process id, run and world make them unique
+            let tag = format!("vc18-{}-{}-{}", std::process::id(), run, name);
+            let mut aname: [Vec<u8>; 4] = Default::default();
+            aname[1] = [b"\0".as_slice(), tag.as_bytes(), b"s"].concat();
+            aname[2] = [b"\0".as_slice(), tag.as_bytes(), b"\0mid\0x"].concat();
+            aname[3] = [b"\0".as_slice(), tag.as_bytes()].concat();
+            aname[3].resize(108, b'z');
+            let mut alisten = [-1; 4];
+            for l in 1..4 {
+                alisten[l] = libc::socket(libc::AF_UNIX, libc::SOCK_STREAM | libc::SOCK_CLOEXEC, 0);
+                let (sa, len) = sockaddr_of(&aname[l]);
+                assert_eq!(0, libc::bind(alisten[l], std::ptr::addr_of!(sa).cast(), len), "bind abstract {l}");
+                assert_eq!(0, libc::listen(alisten[l], 8));
+            }
+            // client 2 has a name of its own, so that accept has a peer address of non-trivial length to report
+            let (ca, clen) = sockaddr_of(&[b"\0".as_slice(), tag.as_bytes(), b"-client\0!"].concat());
+            assert_eq!(0, libc::bind(c2, std::ptr::addr_of!(ca).cast(), clen));
+            SockWorld { path, listener, client: [-1, c1, c2], server_side: [-1; 3], pending: Default::default(), file, file_ino: ino_of(file), dgram_tx, dgram_rx,
+                alisten, aname, tag, pending_on: Default::default() }
         }
     }
     fn close_all(&mut self) {
         unsafe {
-            for fd in [self.listener, self.client[1], self.client[2], self.server_side[1], self.server_side[2], self.file, self.dgram_tx, self.dgram_rx] {
+            for fd in [self.listener, self.client[1], self.client[2], self.server_side[1], self.server_side[2], self.file, self.dgram_tx, self.dgram_rx,
+                       self.alisten[1], self.alisten[2], self.alisten[3]] {
                 if fd >= 0 {
                     libc::close(fd);
                 }
@@ -837,9 +872,18 @@ fn sock_ring(ring: &mut IoUring, w: &mut SockWorld, step: &Value, u: u64, lost_i
     let fl = IoUringSQEFlags::empty();
     // everything an entry points to lives until the end of this function (after the completion)
     let upath = rusl::string::unix_str::UnixString::try_from_str(&w.path).unwrap();
-    let arg = rusl::platform::SocketAddressUnix::try_from_unix(&upath).unwrap();
+    // step = ["connect", client, listener] / ["accept", listener]: listener 0 is the path one, 1..3 the abstract ones
+    let lsel = if kind == "connect" { n } else if kind == "accept" { c } else { 0 };
+    let arg = if kind == "connect" && lsel > 0 {
+        rusl::platform::SocketArgUnix::verif_from_sun_path(&w.aname[lsel])
+    } else {
+        rusl::platform::SocketAddressUnix::try_from_unix(&upath).unwrap()
+    };
+    let lfd = if lsel > 0 { w.alisten[lsel] } else { w.listener };
     let mut peer = [0u8; 112];
-    let mut peer_len: u64 = 110;
+    // the caller's address buffer length: not the capacity constant; sometimes too short (the kernel truncates the
+    // address and still reports its full length)
+    let mut peer_len: u64 = if u % 3 == 0 { 10 } else { 64 };
     let data = &SDATA[..n.min(SDATA.len()).max(if kind == "sendfd" || kind == "dsend" { 1 } else { 0 })];
     let ios = [rusl::platform::IoSlice::new(data)];
     let fds = [Fd::try_new(w.file).unwrap()];
@@ -856,7 +900,7 @@ fn sock_ring(ring: &mut IoUring, w: &mut SockWorld, step: &Value, u: u64, lost_i
     let sqe = unsafe {
         match kind {
             "connect" => IoUringSubmissionQueueEntry::new_connect_unix(Fd::try_new(w.client[c]).unwrap(), &arg, u, fl),
-            "accept" => IoUringSubmissionQueueEntry::new_accept_unix(Fd::try_new(w.listener).unwrap(), peer.as_mut_ptr().cast(), &mut peer_len,
+            "accept" => IoUringSubmissionQueueEntry::new_accept_unix(Fd::try_new(lfd).unwrap(), peer.as_mut_ptr().cast(), &mut peer_len,
                 if u % 2 == 0 { SocketFlags::SOCK_CLOEXEC } else { SocketFlags::SOCK_NONBLOCK }, u, fl),
             "send" | "sendfd" => IoUringSubmissionQueueEntry::new_sendmsg(Fd::try_new(w.client[c]).unwrap(), &guard, 0, u, fl),
             // a send flag with an observable effect: MSG_DONTWAIT on a datagram socket whose receiver's queue is full
@@ -909,8 +953,9 @@ fn sock_ring(ring: &mut IoUring, w: &mut SockWorld, step: &Value, u: u64, lost_i
     *lost_in_a_row = if cqes.is_empty() { *lost_in_a_row + 1 } else { 0 };
     let payload = match kind {
         "accept" if res >= 0 => {
-            w.server_side[w.pending.pop_front().unwrap_or(0)] = res as i32;
-            json!({"addrlen": peer_len, "family": u16::from_ne_bytes([peer[0], peer[1]]), "facts": sock_facts(res as i32)})
+            w.server_side[w.pending_on[lsel].pop_front().unwrap_or(0)] = res as i32;
+            json!({"addrlen": peer_len, "family": u16::from_ne_bytes([peer[0], peer[1]]), "facts": sock_facts(res as i32),
+                "peer": String::from_utf8_lossy(&peer[2..64]).trim_end_matches('\0').replace(&w.tag, "?")})
         }
         "recv" | "peek" if res >= 0 => {
             let (nf, same) = w.received_fds(&ctrl, rhdr.msg_controllen);
@@ -918,7 +963,7 @@ fn sock_ring(ring: &mut IoUring, w: &mut SockWorld, step: &Value, u: u64, lost_i
         }
         "connect" => {
             if res == 0 {
-                w.pending.push_back(c);
+                w.pending_on[lsel].push_back(c);
             }
             Value::Null
         }
@@ -935,24 +980,24 @@ fn sock_direct(w: &mut SockWorld, step: &Value, u: u64) -> (i64, Value) {
     unsafe {
         match kind {
             "connect" => {
-                let mut sa: libc::sockaddr_un = std::mem::zeroed();
-                sa.sun_family = libc::AF_UNIX as u16;
-                for (i, b) in w.path.bytes().enumerate() {
-                    sa.sun_path[i] = b as libc::c_char;
-                }
-                let r = ret(i64::from(libc::connect(w.client[c], std::ptr::addr_of!(sa).cast(), (2 + w.path.len() + 1) as u32)));
+                let l = n;
+                let (sa, len) = if l > 0 { sockaddr_of(&w.aname[l]) } else { sockaddr_of(&[w.path.as_bytes(), b"\0"].concat()) };
+                let r = ret(i64::from(libc::connect(w.client[c], std::ptr::addr_of!(sa).cast(), len)));
                 if r == 0 {
-                    w.pending.push_back(c);
+                    w.pending_on[l].push_back(c);
                 }
                 (r, Value::Null)
             }
             "accept" => {
                 let mut peer = [0u8; 112];
-                let mut len: u32 = 110;
-                let r = ret(i64::from(libc::accept4(w.listener, peer.as_mut_ptr().cast(), &mut len, if u % 2 == 0 { libc::SOCK_CLOEXEC } else { libc::SOCK_NONBLOCK })));
+                let mut len: u32 = if u % 3 == 0 { 10 } else { 64 };
+                let l = c; // ["accept", listener]
+                let lfd = if l > 0 { w.alisten[l] } else { w.listener };
+                let r = ret(i64::from(libc::accept4(lfd, peer.as_mut_ptr().cast(), &mut len, if u % 2 == 0 { libc::SOCK_CLOEXEC } else { libc::SOCK_NONBLOCK })));
                 if r >= 0 {
-                    w.server_side[w.pending.pop_front().unwrap_or(0)] = r as i32;
-                    (r, json!({"addrlen": len, "family": u16::from_ne_bytes([peer[0], peer[1]]), "facts": sock_facts(r as i32)}))
+                    w.server_side[w.pending_on[l].pop_front().unwrap_or(0)] = r as i32;
+                    (r, json!({"addrlen": len, "family": u16::from_ne_bytes([peer[0], peer[1]]), "facts": sock_facts(r as i32),
+                        "peer": String::from_utf8_lossy(&peer[2..64]).trim_end_matches('\0').replace(&w.tag, "?")}))
                 } else {
                     (r, Value::Null)
                 }
